@@ -102,4 +102,85 @@ example :
     (SetIndex hl hn g 0).2 = Err.sentinel "cannot call SetIndex on Tree if Tree has not been reset" := by
   refine ⟨⟨by decide, by decide, by decide, by decide⟩, by decide, by decide, by decide, by decide, by decide, by decide, by decide, by decide⟩
 
+/-! ### histories: `Push` / `PushSubTree` / `Root()` / `Prove()` in any order, executed by the generated code (`gstep` / `grun` of
+Proofs/MerkleTreeGen.lean: the calls `Push`, `PushSubTree(h, MTH X)`, `Root`, `Prove` with fuel `F` for every loop; `Root` and `Prove`
+are translated as functions that do not return the receiver, because their text never assigns it) -/
+
+/-- one call: same observation (refusals included), the new tree abstracts to the model's new tree, the invariant is kept -/
+theorem C16tree_step (F : Nat) (g : GTree) (op : HOp B) (hinv : Inv g) (hb : ∀ e ∈ (abs g).stack, e.1 < 64)
+    (hF : (abs g).stack.length ≤ F) (hop : BndOp (abs g) op) :
+    (gstep hl hn F g op).2 = (hstep hl hn (abs g) op).2 ∧ abs (gstep hl hn F g op).1 = (hstep hl hn (abs g) op).1 ∧
+      Inv (gstep hl hn F g op).1 :=
+  gstep_eq hl hn F g op hinv hb hF hop
+
+/-- every history, from every tree satisfying the invariant, as long as the bounds hold along the model's run (`BndRun`: heights < 64,
+at most `F` sub-trees, no index overflow): the generated code returns the model's observations, in order, and ends in the model's tree -/
+theorem C16tree_run (F : Nat) (ops : List (HOp B)) (g : GTree) (hinv : Inv g) (hb : BndRun hl hn F (abs g) ops) :
+    (grun hl hn F g ops).2 = (hrun hl hn (abs g) ops).2 ∧ abs (grun hl hn F g ops).1 = (hrun hl hn (abs g) ops).1 ∧
+      Inv (grun hl hn F g ops).1 :=
+  grun_eq hl hn F ops g hinv hb
+
+example :
+    let hl : B → B := fun d => 0 :: d
+    let hn : B → B → B := fun a b => 1 :: (a ++ b)
+    let g := (SetIndex hl hn (New hl hn {}) 1).1
+    let ops : List (HOp B) := [.root, .push [1], .prove, .push [2], .root, .sub 1 [[3], [4]], .sub 2 [[5], [6], [7], [8]], .prove, .root]
+    Inv g ∧ BndRun hl hn 8 (abs g) ops ∧ (grun hl hn 8 g ops).2 = (hrun hl hn (abs g) ops).2 := by
+  refine ⟨⟨by decide, by decide, by decide, by decide⟩, by simp only [BndRun, BndOp]; decide, by decide⟩
+
+/-- (C16_history for the translated text) after `New` and `SetIndex(p)` (or none) and the leaves `L`, any well-formed history (cached
+sub-trees = full aligned blocks that do not contain `p`) committing fewer than 2^63 leaves in total: every `Root()` of the generated code
+returned the RFC 6962 tree hash of the leaves committed before it, every `Prove()` that root with the leaf at `p` and its audit path,
+whatever was observed earlier; the final tree is the tree of pushing all committed leaves one by one.  Any fuel ≥ 63 will do. -/
+theorem C16tree_history (p : Nat) (pt : Bool) (F : Nat) (hF : 63 ≤ F) (g : GTree) (L : List B) (hinv : Inv g)
+    (hg : abs g = pushAll hl hn (⟨[], 0, p, none, [], pt⟩ : Merkle.Tree B B) L) (ops : List (HOp B))
+    (hw : hwf (A := B) p L.length ops) (hlen : (L ++ hleaves ops).length < 2^63) :
+    (grun hl hn F g ops).2 = hspec hl hn p L ops ∧
+      abs (grun hl hn F g ops).1 = pushAll hl hn ⟨[], 0, p, none, [], pt⟩ (L ++ hleaves ops) ∧ Inv (grun hl hn F g ops).1 := by
+  have hb := bndRun_init hl hn p pt F hF ops L hw hlen
+  rw [show init0 p pt = (⟨[], 0, p, none, [], pt⟩ : Merkle.Tree B B) from rfl, ← hg] at hb
+  obtain ⟨h1, h2, h3⟩ := grun_eq hl hn F ops g hinv hb
+  rw [hg, C16_history hl hn p pt ops L hw] at h1 h2
+  exact ⟨h1, h2, h3⟩
+
+/-- the start states of `C16tree_history` exist: `New`, and `New` followed by `SetIndex(p)` -/
+theorem C16tree_start (h : Hash) (p : Nat) :
+    (Inv (New hl hn h) ∧ abs (New hl hn h) = pushAll hl hn (⟨[], 0, 0, none, [], false⟩ : Merkle.Tree B B) []) ∧
+    (Inv (SetIndex hl hn (New hl hn h) p).1 ∧ (SetIndex hl hn (New hl hn h) p).2 = Err.nil ∧
+      abs (SetIndex hl hn (New hl hn h) p).1 = pushAll hl hn (⟨[], 0, p, none, [], true⟩ : Merkle.Tree B B) []) := by
+  refine ⟨⟨(new_eq hl hn h).2.1, rfl⟩, ?_, rfl, rfl⟩
+  exact (setIndex_eq hl hn _ p (new_eq hl hn h).2.1).2
+
+example :
+    let ops : List (HOp B) := [.root, .push [1], .prove, .push [2], .root, .sub 1 [[3], [4]], .prove, .root]
+    hwf (A := B) 1 ([] : List B).length ops ∧ (([] : List B) ++ hleaves ops).length < 2^63 := by
+  refine ⟨by simp [hwf], by decide⟩
+
+/-- (C16_root_eq_MTH for the translated text) `Root()` of the generated code on the tree of the leaves `L ≠ []`, fewer than 2^63 -/
+theorem C16tree_root_eq_MTH (p : Nat) (pt : Bool) (F : Nat) (hF : 63 ≤ F) (g : GTree) (L : List B) (hinv : Inv g)
+    (hg : abs g = pushAll hl hn (⟨[], 0, p, none, [], pt⟩ : Merkle.Tree B B) L) (hL : L ≠ []) (hlen : L.length < 2^63) :
+    Root hl hn g F = some (MTH hl hn L) := by
+  have hb := bnd_init hl hn p pt L hlen
+  rw [show init0 p pt = (⟨[], 0, p, none, [], pt⟩ : Merkle.Tree B B) from rfl, ← hg] at hb
+  rw [root_eq hl hn g F hinv.2.1 (by have := hb.2.1; simp [abs, absStack] at this; omega), hg]
+  exact C16_root_eq_MTH hl hn L hL p pt
+
+/-- (C16_prove_eq_PATH + C16_prove_verifies for the translated text, composed with `C16gen_verify`) on the tree of the leaves `L`
+with `p < |L| < 2^63`, the generated `Prove()` returns the RFC 6962 root, the leaf at `p` followed by its audit path, `p` and `|L|`,
+and the generated `VerifyProof` accepts exactly these four values (whatever the state of the hasher it is given) -/
+theorem C16tree_prove_verifies (p : Nat) (pt : Bool) (F : Nat) (hF : 63 ≤ F) (g : GTree) (L : List B) (hinv : Inv g)
+    (hg : abs g = pushAll hl hn (⟨[], 0, p, none, [], pt⟩ : Merkle.Tree B B) L) (hp : p < L.length) (hlen : L.length < 2^63)
+    (h : Hash) (fuel : Nat) (hfuel : 64 ≤ fuel) :
+    Prove hl hn g F F F F = (some (MTH hl hn L), some (L[p] :: PATH hl hn L p), p, L.length) ∧
+    GV.Gen.Imp.MerkleVerify.VerifyProof hl hn h (Prove hl hn g F F F F).1 ((Prove hl hn g F F F F).2.1.getD [])
+      (Prove hl hn g F F F F).2.2.1 (Prove hl hn g F F F F).2.2.2 fuel = true := by
+  have hb := bnd_init hl hn p pt L hlen
+  rw [show init0 p pt = (⟨[], 0, p, none, [], pt⟩ : Merkle.Tree B B) from rfl, ← hg] at hb
+  have hF' : g.head.length ≤ F := by have := hb.2.1; simp [abs, absStack] at this; omega
+  have e : Prove hl hn g F F F F = (some (MTH hl hn L), some (L[p] :: PATH hl hn L p), p, L.length) := by
+    rw [prove_eq hl hn g F F F F hinv hF' hF' hF' hF', hg, C16_prove_eq_PATH hl hn L p hp pt]; rfl
+  refine ⟨e, ?_⟩
+  rw [e]
+  exact C16gen_verify_complete hl hn h L p fuel hp hlen hfuel
+
 end GV.MerkleTreeGen
